@@ -658,6 +658,8 @@ def main():
         try:
             if fname not in trees:
                 trees[fname] = ast.parse(open(path).read())
+            if "--stub-all" in sys.argv:
+                raise Unsupported("stubbed: the generated file did not compile")
             fdef = find_def(trees[fname], kname)
             if fdef is None:
                 raise Unsupported("function not found")
@@ -666,9 +668,12 @@ def main():
             MUTATING[kname] = fn
             parts.append("/-- `%s.%s` -/\n" % (fname[:-3], kname) + text + "\n")
             report.append((kname, "ok"))
-        except Unsupported as e:
-            parts.append(stub(fname, kname, ptypes, ret, str(e)))
-            report.append((kname, "unsupported: %s" % e))
+        except Exception as e:  # noqa  (Unsupported, or the translator itself failing on an unforeseen shape)
+            why = ("%s" % e) if isinstance(e, Unsupported) else "translator error %s: %s" % (type(e).__name__, e)
+            parts.append(stub(fname, kname, ptypes, ret, why))
+            report.append((kname, "unsupported: %s" % why))
+    if os.environ.get("VERIF_SELFTEST_BREAK_GEN") and "--stub-all" not in sys.argv:
+        parts.append('def selftest_broken : Nat := "not a number"   -- self-test of check\'s fallback for a generated file that does not compile\n')
     parts.append("end Pynn.GenK\n")
     text = "\n".join(parts)
     old = open(OUT).read() if os.path.exists(OUT) else None
